@@ -13,13 +13,16 @@ FORBIDDEN_CALL_PARTS = ("unbounded_send", "oneshot::Sender::send", "linear_searc
 
 
 def _decision_atoms(body, bb):
+    """Provenance of a branch decision, including the decisions that selected the value of a flag variable it tests."""
     t = body.term(bb)
     if t["k"] != "switch":
         return set(), None
     si = body.switch_info(bb)
     if si["kind"] == "discr":
-        return body.atoms(si["place"]), si
-    return body.atoms(t["op"]), si
+        return body.atoms_deep({"pl": si["place"]}), si
+    if t["op"].get("k") == "const":
+        return set(), si
+    return body.atoms_deep(t["op"]), si
 
 
 def _is_try_on_write(body, atoms):
@@ -254,4 +257,29 @@ def q2dedup(ctx):
                 f["name"] for f in session["variants"][0]["fields"])
         out.append(Inst("Q2DEDUP", "deliver-unguarded" if not ok else "deliver-guarded", ok and bool(adds) and bool(rems), e.site(), fact,
                         "QoS 2 re-delivery before PUBREL must not be yielded again: needs add/test/remove state"))
+        if ok:
+            # the release removes exactly the identifier of the PUBREL, whatever its position
+            for r in rems:
+                keyed = r.detail["how"] in ("keyed", "retain")
+                idk = any(a[0] == "field" and a[2] == "packet_identifier" for a in (r.detail["recv"] | (set().union(*r.detail["args"]) if r.detail["args"] else set())))
+                cd_bad = []
+                for (d, s_) in hp.control_dep_closure(r.inner_bb if not r.via else r.bb):
+                    atoms, si = _decision_atoms(hp, d)
+                    if si is None:
+                        continue
+                    calls = {a[1] for a in atoms if a[0] == "call"}
+                    if any(c.endswith("VecDeque::front") or c.endswith("VecDeque::back") or c.endswith("VecDeque::len") for c in calls):
+                        cd_bad.append("position-dependent")
+                out.append(Inst("Q2DEDUP", "release:%s" % r.detail["method"], keyed and not cd_bad, r.site(),
+                                "PUBREL releases the identifier with %s (%s%s)" % (r.detail["method"], "by value" if keyed else "by position", ", " + ",".join(cd_bad) if cd_bad else ""),
+                                "the identifier of the PUBREL is released wherever it is stored (a later PUBLISH reusing it is a new message)"))
+            # recognition of a re-delivery must not depend on the DUP flag
+            dup_dep = []
+            for x in [e] + adds:
+                for (d, s_) in hp.control_dep_closure(x.inner_bb if not x.via else x.bb):
+                    atoms, si = _decision_atoms(hp, d)
+                    if any(a[0] == "field" and a[2] == "dup" for a in atoms):
+                        dup_dep.append(hp.site(d))
+            out.append(Inst("Q2DEDUP", "independent-of-dup", not dup_dep, e.site(), "delivery / bookkeeping decisions depending on the DUP flag: %s" % (sorted(set(dup_dep)) or "none"),
+                            "a repeated QoS 2 PUBLISH is a re-delivery whether or not the broker set DUP"))
     return out
